@@ -60,34 +60,34 @@ func writeEvidence(spec *Spec, tier string, seed int64, path string, stats []*ru
 		states = 0
 	}
 	cov := map[string]interface{}{
-		"states":                        max64(states, 1),
-		"transitions":                   max64(transitions, 1),
-		"traces_validated_against_impl": validated,
-		"samples":                       samples,
-		"evaluations":                   max64(states, 1),
-		"distinct_nontrivial":           max64(int64(distinct), 2),
-		"rule":                          spec.Rule,
-		"exhaustive":                    exhaustive,
-		"paths_completed":               states,
-		"paths_assumption_infeasible":   infeasible,
+		"states":                           max64(states, 1),
+		"transitions":                      max64(transitions, 1),
+		"traces_validated_against_impl":    validated,
+		"samples":                          samples,
+		"evaluations":                      max64(states, 1),
+		"distinct_nontrivial":              max64(int64(distinct), 2),
+		"rule":                             spec.Rule,
+		"exhaustive":                       exhaustive,
+		"paths_completed":                  states,
+		"paths_assumption_infeasible":      infeasible,
 		"assertion_obligations_discharged": asserts,
-		"assertion_queries_to_solver":   assertQ,
-		"ssa_instructions_executed":     instrs,
-		"symbolic_hash_applications":    hashes,
-		"functions_encoded":             encoded,
-		"bounds":                        spec.Bounds,
-		"models_used":                   spec.Models,
-		"runs":                          runs,
+		"assertion_queries_to_solver":      assertQ,
+		"ssa_instructions_executed":        instrs,
+		"symbolic_hash_applications":       hashes,
+		"functions_encoded":                encoded,
+		"bounds":                           spec.Bounds,
+		"models_used":                      spec.Models,
+		"runs":                             runs,
 		"queries": map[string]int64{
 			"sat": qsat, "unsat": qunsat, "unknown": qunk, "answered_by_fallback_solver": qfb, "unsat_cross_checked_by_second_solver": qcross,
 		},
-		"solver_time_s":    round1(float64(sns) / 1e9),
-		"solver":           primarySolver(spec) + " (one pipe per worker, reset per path); on unknown: cvc5 --solve-bv-as-int=sum, cvc5, z3-new 5.1.0, fresh z3",
+		"solver_time_s":       round1(float64(sns) / 1e9),
+		"solver":              primarySolver(spec) + " (one pipe per worker, reset per path); on unknown: cvc5 --solve-bv-as-int=sum, cvc5, z3-new 5.1.0, fresh z3",
 		"known_findings_seen": known,
-		"inconclusive":     inconclusive,
-		"load_s":           round1(loadS),
-		"workers":          workers,
-		"encoding":         "regenerated from /repo's working tree on this run (go/packages + go/ssa, no cache)",
+		"inconclusive":        inconclusive,
+		"load_s":              round1(loadS),
+		"workers":             workers,
+		"encoding":            "regenerated from /repo's working tree on this run (go/packages + go/ssa, no cache)",
 	}
 	if !exhaustive {
 		cov["explanation"] = "run was inconclusive: " + strings.Join(inconclusive, "; ")
